@@ -347,7 +347,7 @@ theorem their_unfold {σ : Type} (leaf : Nat → Nat → Outcome σ) (b : Bytes)
           | ok subs =>
             dsimp only
             rw [ok_bind]
-            unfold theirHere
+            unfold theirHere Otl.LL.finishLookup Otl.LL.inrOnly
             rcases subs with _ | ⟨x, xs⟩
             · simp only [ok_bind]
               cases Otl.LL.readLookups leaf b ext lps (numL + 1) (numS + cnt) <;> rfl
